@@ -581,6 +581,9 @@ def _damp_jobs(d, widths, thorough):
     shape_l, dx_l = _damp_pool(d, wl, thorough)[0]
     jobs.append((wl - 1, shape_l, dx_l, "sibling-width", variants[:1]))
     jobs.append((wl, shape_l, 0.37 / 40, "sibling-dx", variants[:1]))
+    # same width, shape, spacing, precision and thread count as the first pool kernel, but ANOTHER grid origin (kernels bake the
+    # first/last cell-centre coordinates in: a generator cache keyed without them serves the wrong constants)
+    jobs.append((wl, shape_l, dx_l, "sibling-origin", variants[:1]))
     jobs.append((wl, shape_l, dx_l, "first-again", variants[:1]))
     return jobs
 
@@ -599,8 +602,11 @@ def _damp(sh, rec):
             # every axis (cell centres from dx/2); the others give every axis its OWN origin -- x from 0, y from -0.37 L_y, z
             # centred about 0 -- so that an x/y/z grid start or end taken from the wrong coordinate field shows.  Offsets stay
             # inside the extent (|coordinate| <= L), hence the rounding model of the ring tolerance is unchanged.
-            distinct = (role == "pool" and ijob % 2 == 1) or role == "tall"
+            distinct = (role == "pool" and ijob % 2 == 1) or role == "tall" or role == "sibling-origin"
             frac = ([-0.37, 0.0] if d == 2 else [-0.5, -0.37, 0.0]) if distinct else [0.0] * d  # array-axis order (z,) y, x
+            if role == "sibling-origin":
+                frac = [0.4, -0.13] if d == 2 else [0.21, 0.4, -0.13]
+                rec.count("damping_calls_sibling_origin")
             axes = [((np.arange(n) + 0.5) * dx + fr * n * dx).astype(real_t) for n, fr in zip(shape, frac)]
             g = [np.ascontiguousarray(a) for a in np.meshgrid(*axes, indexing="ij")][::-1]  # x, y(, z)
             for var in variants:
